@@ -306,6 +306,80 @@ pub fn attribute<X: PartialEq>(prop: &str, got: &X, oracle: impl Fn(&Quirks) -> 
 }
 
 // ------------------------------------------------------------------------------------------------
+// hang watchdog: every library call is bracketed by `Flight`; a monitor thread reports a call that
+// has been in flight for longer than the limit
+
+pub struct Slot {
+    pub since: Option<std::time::Instant>,
+    pub q: *const str,
+    pub doc: *const Value,
+}
+unsafe impl Send for Slot {}
+
+static SLOTS: OnceLock<std::sync::Mutex<Vec<std::sync::Arc<std::sync::Mutex<Slot>>>>> = OnceLock::new();
+static CURRENT_PROP: OnceLock<String> = OnceLock::new();
+
+thread_local! {
+    static MY_SLOT: std::sync::Arc<std::sync::Mutex<Slot>> = {
+        let s = std::sync::Arc::new(std::sync::Mutex::new(Slot { since: None, q: "" as *const str, doc: std::ptr::null() }));
+        SLOTS.get_or_init(|| std::sync::Mutex::new(vec![])).lock().unwrap().push(s.clone());
+        s
+    };
+}
+
+/// run a library call with the hang monitor armed
+pub fn in_flight<T>(q: &str, doc: &Value, f: impl FnOnce() -> T) -> T {
+    MY_SLOT.with(|s| {
+        let mut g = s.lock().unwrap();
+        g.since = Some(std::time::Instant::now());
+        g.q = q as *const str;
+        g.doc = doc as *const Value;
+    });
+    let r = f();
+    MY_SLOT.with(|s| {
+        let mut g = s.lock().unwrap();
+        g.since = None;
+    });
+    r
+}
+
+pub const HANG_LIMIT_S: u64 = 20;
+
+fn start_watchdog() {
+    std::thread::spawn(|| loop {
+        std::thread::sleep(std::time::Duration::from_millis(500));
+        let slots = match SLOTS.get() {
+            Some(s) => s.lock().unwrap().clone(),
+            None => continue,
+        };
+        for s in slots {
+            let g = s.lock().unwrap();
+            if let Some(t) = g.since {
+                if t.elapsed().as_secs() >= HANG_LIMIT_S {
+                    // the owning thread is still inside the call, so the pointers are alive
+                    let (q, doc) = unsafe { ((&*g.q).to_string(), (&*g.doc).clone()) };
+                    let prop = CURRENT_PROP.get().cloned().unwrap_or_default();
+                    let f = Failure::new(
+                        format!("a library call did not return within {} s (the reference evaluation of such a case takes microseconds)", HANG_LIMIT_S),
+                        json!({"query": q, "doc": doc}),
+                    );
+                    let path = write_replay(&prop, "hang", 0, None, &f);
+                    if prop == "C08" || prop == "C11" {
+                        println!("VIOLATION property={} replay={}", prop, path);
+                        eprintln!("  {}", f.msg);
+                        eprintln!("  case: {}", f.case);
+                        std::process::exit(1);
+                    } else {
+                        eprintln!("{}: a library call hangs ({}); termination is property C08's business, this check cannot decide (replay {})", prop, f.msg, path);
+                        std::process::exit(2);
+                    }
+                }
+            }
+        }
+    });
+}
+
+// ------------------------------------------------------------------------------------------------
 // panic capture
 
 thread_local! {
@@ -672,6 +746,8 @@ fn regress_tier(p: &Prop, obs: &mut Obs, out: &mut Vec<(String, Failure)>) -> u6
 pub fn run_prop(p: &Prop, cfg: &RunCfg, only_sub: Option<&str>) -> i32 {
     let t0 = std::time::Instant::now();
     install_quiet_panic_hook();
+    let _ = CURRENT_PROP.set(p.id.to_string());
+    start_watchdog();
     // self tests first: a failure means the harness is wrong, never the library
     let mut selftests = 0;
     if let Some(st) = p.selftest {
